@@ -252,6 +252,7 @@ class TU:
     def __init__(self, decls, meta):
         self.decls, self.meta = decls, meta
         self.classes, self.funcs, self.globals = {}, {}, []
+        self.tinst = {}
         for d in decls:
             self._add(d, False)
 
@@ -266,6 +267,10 @@ class TU:
             pat = [c for c in kids(d) if c.get("kind") == "FunctionDecl"]
             if pat:
                 self.funcs[d["name"]] = Fn(pat[0], None, False, template=True)
+                # the instantiations carry resolved types: a call names the one it uses by declaration id
+                for inst in pat[1:]:
+                    if any(c.get("kind") == "CompoundStmt" for c in kids(inst)):
+                        self.tinst[inst.get("id")] = Fn(inst, None, False)
         elif k == "LinkageSpecDecl":
             for c in kids(d):
                 self._add(c, d.get("language") == "C")
